@@ -1,2 +1,3 @@
 -- Property files of work group G (import UF.Props.Cxx lines go here).
 import UF.Driver.Ops.GroupG
+import UF.Props.C03
